@@ -222,7 +222,17 @@ def rounds(ctx, shard, nshards):
                 if d == R.mdays(y, m) and d < f[2]:
                     continue
             vals.append((n, s))
+        # military midnight: D T24:00:00 is (D+1) T00:00:00; time targets only, and a value on
+        # the target keeps its notation
+        mil = {}
+        if ik in ("dt", "t") and (spec["f"][1] in ("hour", "min", "sec", "s", "m", "h")):
+            for j, (n, s_) in enumerate(vals):
+                if rnd.random() < 0.08:
+                    mil[j] = n
+                    vals[j] = (n + 1, 0)
         ins = [text(ik, n, s) for n, s in vals]
+        for j, n0 in mil.items():
+            ins[j] = "24:00:00" if ik == "t" else text("d", n0, None) + "T24:00:00"
         # two targets in one invocation are two roundings, one after the other: each argument
         # keeps its own meaning (a co-class marker belongs to the argument that carries it)
         if ik == "dt" and not nextp and rnd.random() < 0.3:
@@ -237,6 +247,8 @@ def rounds(ctx, shard, nshards):
                           actual=e.result.brief())
                     pout = []
                 for (n, s_), i, o in zip(vals, ins, pout):
+                    if i.endswith("24:00:00"):
+                        continue
                     e1 = expected(spec, False, n, s_)
                     e2 = expected(spec2, False, e1[0], e1[1]) if e1 is not None else None
                     if e2 is None:
@@ -267,6 +279,8 @@ def rounds(ctx, shard, nshards):
                 x = R.hms(e[1])
             else:
                 x = text(ik, e[0], e[1] if s is not None else None)
+            if i.endswith("24:00:00") and not nextp and (e[0], e[1]) == (n, s):
+                x = i
             exps.append(x)
             sub.evaluations += 1
             if x == i or (e[0] != n):
